@@ -8,8 +8,11 @@
 
     Reading guide.  An enumeration [e] is its identity [eid e] and the list [names e] of
     its member names in declaration order (any length; the statements about names ask for
-    [NoDup (names e)], which Python's enum machinery guarantees).  A member is the pair
-    (identity of its enumeration, index).  [as_ints x = Some l] reads "x is a numpy integer
+    [NoDup (names e)], which Python's enum machinery guarantees).  Two classes of the same
+    __name__ compare equal in openfisca and have the same [eid].  A member is
+    (identity of its enumeration, index, name); [designates e m]: [m] is of [e]'s class
+    (as == sees it) and [e] has a member of that name at that index;
+    [member_of_index e i m]: moreover that index is [i].  [as_ints x = Some l] reads "x is a numpy integer
     array, or a Python sequence of ints/bools, holding the values l"; [as_names],
     [as_members] likewise.  [valid_index e i] is [0 <= i < size e]. *)
 From Coq Require Import String ZArith List Bool Permutation.
@@ -23,10 +26,9 @@ Open Scope Z_scope.
 
 Theorem decode_encode_indices : forall e x l,
   as_ints x = Some l -> (forall i, In i l -> valid_index e i) ->
-  exists a ns, encode e x = Ok a /\ possible_values a = Some e /\ indices a = l /\
-    decode a = Ok (map (fun i => (eid e, i)) l) /\
-    decode_to_str a = Ok ns /\
-    Forall2 (fun i s => nth_error (names e) (Z.to_nat i) = Some s) l ns.
+  exists a ms, encode e x = Ok a /\ possible_values a = Some e /\ indices a = l /\
+    decode a = Ok ms /\ Forall2 (member_of_index e) l ms /\
+    decode_to_str a = Ok (map mname ms).
 Proof. exact decode_encode_indices_lemma. Qed.
 Print Assumptions decode_encode_indices.
 
@@ -34,14 +36,14 @@ Theorem decode_encode_names : forall e x l,
   NoDup (names e) -> as_names x = Some l -> (forall s, In s l -> In s (names e)) ->
   exists a ms, encode e x = Ok a /\ possible_values a = Some e /\
     decode_to_str a = Ok l /\ decode a = Ok ms /\
-    Forall2 (fun s m => member_name e m = Some s) l ms.
+    map mname ms = l /\ (forall m, In m ms -> designates e m).
 Proof. exact decode_encode_names_lemma. Qed.
 Print Assumptions decode_encode_names.
 
 Theorem decode_encode_members : forall e x ms,
-  as_members x = Some ms -> (forall m, In m ms -> fst m = eid e /\ valid_index e (snd m)) ->
-  exists a ns, encode e x = Ok a /\ possible_values a = Some e /\ decode a = Ok ms /\
-    decode_to_str a = Ok ns /\ Forall2 (fun m s => member_name e m = Some s) ms ns.
+  as_members x = Some ms -> (forall m, In m ms -> designates e m) ->
+  exists a, encode e x = Ok a /\ possible_values a = Some e /\ decode a = Ok ms /\
+    decode_to_str a = Ok (map mname ms).
 Proof. exact decode_encode_members_lemma. Qed.
 Print Assumptions decode_encode_members.
 
@@ -56,13 +58,11 @@ Theorem encode_idempotent : forall e e' x a,
 Proof. exact encode_idempotent_lemma. Qed.
 Print Assumptions encode_idempotent.
 
-(** ** An encoded array never holds an index that does not designate a member.
-       ([wf_members e x]: the member objects of [e] found in [x] carry one of [e]'s indices,
-       which is true of every object Python's enum machinery creates; the hypothesis says
-       nothing about names, integers, or members of other enumerations.) *)
+(** ** An encoded array never holds an index that does not designate a member, whatever
+       the input (an already encoded array is returned as it is, see above) *)
 
 Theorem encode_total_valid : forall e x a,
-  (forall b, x <> Encoded b) -> wf_members e x -> encode e x = Ok a ->
+  (forall b, x <> Encoded b) -> encode e x = Ok a ->
   possible_values a = Some e /\ length (indices a) = input_len x /\
   forall i, In i (indices a) -> valid_index e i.
 Proof. exact encode_total_valid_lemma. Qed.
@@ -70,10 +70,9 @@ Print Assumptions encode_total_valid.
 
 (** ... so decoding it succeeds and yields members of this enumeration, one per element *)
 Theorem encoded_decodes : forall e x a,
-  (forall b, x <> Encoded b) -> wf_members e x -> encode e x = Ok a ->
-  exists ms ns, decode a = Ok ms /\ decode_to_str a = Ok ns /\
-    length ms = input_len x /\ length ns = input_len x /\
-    forall m, In m ms -> fst m = eid e /\ valid_index e (snd m).
+  (forall b, x <> Encoded b) -> encode e x = Ok a ->
+  exists ms, decode a = Ok ms /\ decode_to_str a = Ok (map mname ms) /\
+    length ms = input_len x /\ Forall2 (member_of_index e) (indices a) ms.
 Proof. exact encoded_decodes_lemma. Qed.
 Print Assumptions encoded_decodes.
 
@@ -92,9 +91,11 @@ Theorem unknown_name_rejected : forall e x l s,
 Proof. exact unknown_name_rejected_lemma. Qed.
 Print Assumptions unknown_name_rejected.
 
-(** a member of another enumeration anywhere among members: EnumEncodingError (a TypeError) *)
+(** a member of another enumeration anywhere among members: EnumEncodingError (a TypeError).
+    "Another enumeration": of another class name, or of a class of the same name in which that
+    (index, name) does not designate a member of [e] *)
 Theorem foreign_member_rejected : forall e x ms m,
-  as_members x = Some ms -> In m ms -> fst m <> eid e -> encode e x = Err EType.
+  as_members x = Some ms -> In m ms -> ~ designates e m -> encode e x = Err EType.
 Proof. exact foreign_member_rejected_lemma. Qed.
 Print Assumptions foreign_member_rejected.
 
@@ -167,7 +168,7 @@ Proof. vm_compute. auto. Qed.
 
 Example ex_indices :
   encode housing (Seq [EInt 4; EBool true; EInt 0]) = Ok (mkArr (Some housing) [4; 1; 0]) /\
-  decode (mkArr (Some housing) [4; 1; 0]) = Ok [(7, 4); (7, 1); (7, 0)] /\
+  decode (mkArr (Some housing) [4; 1; 0]) = Ok [mkMem 7 4 "own"; mkMem 7 1 "owner"; mkMem 7 0 "tenant"] /\
   decode_to_str (mkArr (Some housing) [4; 1; 0]) = Ok ["own"; "owner"; "tenant"] /\
   encode housing (ArrInt [4; 1; 0]) = Ok (mkArr (Some housing) [4; 1; 0]).
 Proof. vm_compute. auto. Qed.
@@ -180,10 +181,10 @@ Example ex_names :
 Proof. vm_compute. auto. Qed.
 
 Example ex_members :
-  as_members (ArrObj [EMem (7, 2); EMem (7, 0)]) = Some [(7, 2); (7, 0)] /\
-  encode housing (ArrObj [EMem (7, 2); EMem (7, 0)]) = Ok (mkArr (Some housing) [2; 0]) /\
-  decode (mkArr (Some housing) [2; 0]) = Ok [(7, 2); (7, 0)] /\
-  encode housing (Seq [EMem (7, 2); EMem (7, 0)]) = Ok (mkArr (Some housing) [2; 0]).
+  as_members (ArrObj [EMem (mkMem 7 2 "free"); EMem (mkMem 7 0 "tenant")]) = Some [mkMem 7 2 "free"; mkMem 7 0 "tenant"] /\
+  encode housing (ArrObj [EMem (mkMem 7 2 "free"); EMem (mkMem 7 0 "tenant")]) = Ok (mkArr (Some housing) [2; 0]) /\
+  decode (mkArr (Some housing) [2; 0]) = Ok [mkMem 7 2 "free"; mkMem 7 0 "tenant"] /\
+  encode housing (Seq [EMem (mkMem 7 2 "free"); EMem (mkMem 7 0 "tenant")]) = Ok (mkArr (Some housing) [2; 0]).
 Proof. vm_compute. auto. Qed.
 
 Example ex_idempotent :
@@ -191,14 +192,17 @@ Example ex_idempotent :
   encode housing (Encoded (mkArr (Some housing) [3])) = Ok (mkArr (Some housing) [3]).
 Proof. vm_compute. auto. Qed.
 
-Example ex_total_valid_hyps :
-  wf_members housing (Seq [EMem (7, 2); EMem (7, 0)]) /\
-  (forall b, Seq [EMem (7, 2); EMem (7, 0)] <> Encoded b).
-Proof.
-  split; [|intros b H; discriminate].
-  intros m H _. cbn in H. unfold valid_index.
-  destruct H as [H|[H|[]]]; inversion H; subst; vm_compute; split; congruence.
-Qed.
+(** a reform redefines "housing" under the same class name (same [eid]), members permuted and
+    one more: its members are accepted only where index and name coincide *)
+Definition housing2 : enum := mkEnum 7 ["tenant"; "free"; "owner"; "Owner"; "own"; "squat"].
+
+Example ex_same_name :
+  encode housing (Seq [EMem (mkMem 7 0 "tenant"); EMem (mkMem 7 3 "Owner")]) = Ok (mkArr (Some housing) [0; 3]) /\
+  encode housing (Seq [EMem (mkMem 7 0 "tenant"); EMem (mkMem 7 1 "free")]) = Err EType /\
+  encode housing (ArrObj [EMem (mkMem 7 5 "squat")]) = Err EType /\
+  encode housing2 (Seq [EMem (mkMem 7 5 "squat"); EMem (mkMem 7 2 "owner")]) = Ok (mkArr (Some housing2) [5; 2]) /\
+  ~ designates housing (mkMem 7 1 "free") /\ designates housing (mkMem 7 3 "Owner").
+Proof. vm_compute. repeat split; auto; intros [_ H]; discriminate. Qed.
 
 Example ex_out_of_range :
   encode housing (ArrInt [0; -1; 2]) = Err EIndex /\
@@ -214,15 +218,15 @@ Example ex_unknown_name :
 Proof. vm_compute. auto. Qed.
 
 Example ex_foreign_member :
-  encode housing (Seq [EMem (8, 0); EMem (7, 0); EMem (7, 1)]) = Err EType /\
-  encode housing (Seq [EMem (7, 0); EMem (8, 0); EMem (7, 1)]) = Err EType /\
-  encode housing (ArrObj [EMem (7, 0); EMem (7, 1); EMem (8, 0)]) = Err EType /\
-  encode other (Seq [EMem (8, 0)]) = Ok (mkArr (Some other) [0]).
+  encode housing (Seq [EMem (mkMem 8 0 "a"); EMem (mkMem 7 0 "tenant"); EMem (mkMem 7 1 "owner")]) = Err EType /\
+  encode housing (Seq [EMem (mkMem 7 0 "tenant"); EMem (mkMem 8 0 "a"); EMem (mkMem 7 1 "owner")]) = Err EType /\
+  encode housing (ArrObj [EMem (mkMem 7 0 "tenant"); EMem (mkMem 7 1 "owner"); EMem (mkMem 8 0 "a")]) = Err EType /\
+  encode other (Seq [EMem (mkMem 8 0 "a")]) = Ok (mkArr (Some other) [0]).
 Proof. vm_compute. auto. Qed.
 
 Example ex_unsupported :
   encode housing (Seq [EInt 0; EOther]) = Err EType /\
-  encode housing (ArrObj [EMem (7, 0); EOther]) = Err EType /\
+  encode housing (ArrObj [EMem (mkMem 7 0 "tenant"); EOther]) = Err EType /\
   encode housing (ArrOther 2) = Err EType /\
   encode housing (Seq [EInt 0; EStr "owner"]) = Err EType.
 Proof. vm_compute. auto. Qed.
